@@ -93,8 +93,31 @@ static std::string dstr(double v) {
 // ------------------------------------------------------------------ b: bonded interactions
 static const double PI = 3.14159265358979323846;
 
+// Off-diagonal-pattern boxes "od:<a_x>,<b_y>,<c_z>:<b_x>,<c_x>,<c_y>:<auto|ortho|tric>": the three GROMACS-reduced off-diagonal elements are
+// given explicitly (any of them may be exactly 0), the last field says how the box type reaches Topology::setBox (auto = typeAuto, the
+// auto-detection decides; ortho / tric = given explicitly).
+struct OdBox { bool is = false; Eigen::Matrix3d m = Eigen::Matrix3d::Zero(); std::string mode, pat; };
+static OdBox odbox(const std::string &b) {
+  OdBox o;
+  if (b.compare(0, 3, "od:") != 0) return o;
+  auto f = bsx::split(b, ':');
+  if (f.size() != 4) throw std::runtime_error("harness: malformed od box " + b);
+  auto e = nums(f[1]), s = nums(f[2]);
+  if (e.size() != 3 || s.size() != 3 || (f[3] != "auto" && f[3] != "ortho" && f[3] != "tric")) throw std::runtime_error("harness: malformed od box " + b);
+  o.is = true; o.mode = f[3];
+  o.m.col(0) = V3(e[0], 0, 0); o.m.col(1) = V3(s[0], e[1], 0); o.m.col(2) = V3(s[1], s[2], e[2]);
+  const char *nm[3] = {"bx", "cx", "cy"};
+  for (int k = 0; k < 3; k++) if (s[k] != 0) o.pat += (o.pat.empty() ? "" : "+") + std::string(nm[k]);
+  if (o.pat.empty()) o.pat = "none";
+  if (o.mode == "ortho" && o.pat != "none") throw std::runtime_error("harness: explicit orthorhombic type for a sheared box " + b);
+  // the minimum image must be unambiguous and the reduction c, b, a of the real code valid: GROMACS conditions
+  if (!(e[0] > 0 && e[1] > 0 && e[2] > 0 && 2 * std::fabs(s[0]) <= e[0] && 2 * std::fabs(s[1]) <= e[0] && 2 * std::fabs(s[2]) <= e[1]))
+    throw std::runtime_error("harness: od box is not GROMACS-reduced " + b);
+  return o;
+}
 static Eigen::Matrix3d boxmat(const std::string &b) {
   Eigen::Matrix3d m = Eigen::Matrix3d::Zero();
+  if (b.compare(0, 3, "od:") == 0) return odbox(b).m;
   if (b == "cubic") m.diagonal() << 8, 8, 8;
   else if (b == "ortho") m.diagonal() << 10, 12, 14;
   else if (b == "tric") { m.col(0) = V3(10, 0, 0); m.col(1) = V3(2, 12, 0); m.col(2) = V3(1, 3, 14); }
@@ -146,10 +169,10 @@ struct Rig {
   Topology top;
   std::unique_ptr<Interaction> ia;
   int nb;
-  Rig(const std::string &kind, const Eigen::Matrix3d &box) {
+  Rig(const std::string &kind, const Eigen::Matrix3d &box, BoundaryCondition::eBoxtype type = BoundaryCondition::typeAuto) {
     nb = kind == "bond" ? 2 : (kind == "angle" ? 3 : 4);
     for (int i = 0; i < nb; i++) top.CreateBead(Bead::spherical, "b" + std::to_string(i), "C", 1, 1.0, 0.0);
-    top.setBox(box);
+    top.setBox(box, type);
     if (nb == 2) ia = std::make_unique<IBond>(0, 1);
     else if (nb == 3) ia = std::make_unique<IAngle>(0, 1, 2);
     else ia = std::make_unique<IDihedral>(0, 1, 2, 3);
@@ -174,7 +197,13 @@ static void run_bonded(std::map<std::string, std::string> &m, Res &R) {
   std::string box = m["box"];
   int mot = atoi(m["mot"].c_str());
   Eigen::Matrix3d B = boxmat(box);
-  Rig rig(g.kind, B);
+  OdBox od = odbox(box);
+  // key suffix of the image-shift checks: the named box, or for the od boxes the zero/non-zero pattern of (b_x,c_x,c_y) and how the type was given
+  std::string boxkey = od.is ? "shear-" + od.pat + "-" + (od.mode == "auto" ? "auto" : "explicit-" + od.mode) : box;
+  BoundaryCondition::eBoxtype btype = BoundaryCondition::typeAuto;
+  if (od.is && od.mode == "ortho") btype = BoundaryCondition::typeOrthorhombic;
+  if (od.is && od.mode == "tric") btype = BoundaryCondition::typeTriclinic;
+  Rig rig(g.kind, B, btype);
   int nb = rig.nb;
   std::vector<V3> base = build(g);
   auto moved = [&](int k) {
@@ -260,11 +289,11 @@ static void run_bonded(std::map<std::string, std::string> &m, Res &R) {
     BEval eu = rig.eval(unshifted);
     R.checks += 2;
     if (std::fabs(e.v - eu.v) > 1e-11 * (1 + std::fabs(eu.v)))
-      R.fail(K + "-image-shift-value-" + box, "value " + fmt(e.v) + " with bead " + std::to_string(sb) + " shifted by a box vector vs " + fmt(eu.v));
+      R.fail(K + "-image-shift-value-" + boxkey, "value " + fmt(e.v) + " with bead " + std::to_string(sb) + " shifted by a box vector vs " + fmt(eu.v));
     for (int b = 0; b < nb; b++) {
       V3 d = e.g[b] - eu.g[b];
       if (d.cwiseAbs().maxCoeff() > 1e-9 * (1 + gmax)) {
-        R.fail(K + "-image-shift-grad-" + box, "Grad(bead " + std::to_string(b) + ")=" + v3s(e.g[b]) + " vs unshifted " + v3s(eu.g[b]));
+        R.fail(K + "-image-shift-grad-" + boxkey, "Grad(bead " + std::to_string(b) + ")=" + v3s(e.g[b]) + " vs unshifted " + v3s(eu.g[b]));
         break;
       }
     }
@@ -585,6 +614,54 @@ static void all_cases(bool thorough, CaseList &C) {
     for (auto &l1 : LS) for (auto &l2 : LS) for (auto &l3 : LS) for (auto &t : TH) for (auto &ph : PHI)
       cfam("dihedral", 4, "l=" + l1 + "," + l2 + "," + l3 + ";th=" + t.first + "," + t.second + ";phi=" + ph, M2, B4);
   }
+  // both tiers: the off-diagonal PATTERN of the box as a dimension. Every zero / + / - combination of the three GROMACS-reduced off-diagonal
+  // elements (b_x, c_x, c_y): 3^3 = 27 sign vectors = the 2^3 = 8 zero/non-zero patterns with every sign combination (incl. all-zero =
+  // orthorhombic), on two edge triples (6,6,6) and (5,6,7), box type left at auto AND given explicitly (orthorhombic and triclinic for the
+  // all-zero pattern, triclinic for the sheared ones): 110 box configurations; unshifted and EVERY bead shifted by EVERY lattice vector
+  // n_a a + n_b b + n_c c, n in {-2..2}^3 \ 0 (124). Bond lengths <= 2 keep every bond-vector component below half the box.
+  {
+    struct ET { std::string e; std::string mag[3]; };  // edges a_x,b_y,c_z and magnitudes of b_x, c_x, c_y (|b_x|,|c_x| <= a_x/2, |c_y| <= b_y/2)
+    const std::vector<ET> ETS = {{"6,6,6", {"1.5", "1", "2.5"}}, {"5,6,7", {"1.25", "0.75", "2.75"}}};
+    std::vector<std::string> ODB;
+    for (int npat = 0; npat <= 3; npat++)  // simplest first: number of non-zero off-diagonal elements
+      for (auto &et : ETS)
+        for (int code = 0; code < 27; code++) {
+          int d[3] = {code % 3, (code / 3) % 3, code / 9}, nz = 0;  // 0 zero, 1 +, 2 -
+          std::string od;
+          for (int k = 0; k < 3; k++) { nz += d[k] != 0; od += (k ? "," : "") + (d[k] == 0 ? std::string("0") : (d[k] == 1 ? "" : "-") + et.mag[k]); }
+          if (nz != npat) continue;
+          std::string b = "od:" + et.e + ":" + od + ":";
+          ODB.push_back(b + "auto");
+          if (nz == 0) ODB.push_back(b + "ortho");
+          ODB.push_back(b + "tric");
+        }
+    std::vector<std::string> SHALL;
+    for (int r = 1; r <= 2; r++)  // simplest first: max |n| = 1, then 2
+      for (int na = -2; na <= 2; na++) for (int nb2 = -2; nb2 <= 2; nb2++) for (int nc = -2; nc <= 2; nc++)
+        if (std::max({std::abs(na), std::abs(nb2), std::abs(nc)}) == r) SHALL.push_back(std::to_string(na) + ":" + std::to_string(nb2) + ":" + std::to_string(nc));
+    auto odfam = [&](const std::string &kind, int nb, const std::string &geo, const std::vector<int> &mots) {
+      for (int mot : mots)
+        for (auto &box : ODB) {
+          std::string hb = "b;kind=" + kind + ";" + geo + ";box=" + box + ";mot=" + std::to_string(mot) + ";sh=";
+          C.push_back(hb + "none");
+          for (int b = 0; b < nb; b++) for (auto &sh : SHALL) C.push_back(hb + std::to_string(b) + ":" + sh);
+        }
+    };
+    const std::vector<int> M2 = {0, 4};
+    if (!thorough) {
+      for (auto &l1 : L) odfam("bond", 2, "l=" + l1, M2);
+      for (std::string geo : {"l=1,1;th=90", "l=0.5,2;th=60", "l=2,1;th=135", "l=1,0.5;th=30"}) odfam("angle", 3, geo, M2);
+      for (std::string geo : {"l=1,1,1;th=90,90;phi=75", "l=0.5,1,2;th=60,120;phi=-135", "l=2,0.5,1;th=45,135;phi=15", "l=1,2,0.5;th=60,120;phi=165"})
+        odfam("dihedral", 4, geo, M2);
+    } else {
+      const std::vector<int> M6 = {0, 1, 2, 3, 4, 5};
+      std::vector<std::pair<std::string, std::string>> TH = {{"90", "90"}, {"60", "120"}, {"45", "135"}};
+      for (auto &l1 : L) odfam("bond", 2, "l=" + l1, M6);
+      for (auto &l1 : L) for (auto &l2 : L) for (auto &a : ANG) odfam("angle", 3, "l=" + l1 + "," + l2 + ";th=" + a, M2);
+      for (std::string ls : {"1,1,1", "0.5,1,2", "2,0.5,1"}) for (auto &t : TH) for (auto &ph : PHI)
+        odfam("dihedral", 4, "l=" + ls + ";th=" + t.first + "," + t.second + ";phi=" + ph, M2);
+    }
+  }
   // potential functions
   {
     std::vector<std::pair<std::string, std::string>> RNG = {{"0.5", "1.5"}, {"0.3", "1.2"}};
@@ -759,7 +836,11 @@ int main(int argc, char **argv) {
       "with a large c_y of either sign, a=(6,0,0) b=(+-1.5,6,0) c=(+-1,+-2.5,6) for all geometries and a=(4,0,0) b=(+-1,4,0) c=(+-0.5,+-1.5,4) for bond lengths <= 1, every "
       "bead shifted by {c,-c,2c,-2c,a+c,b-c,-a-b+2c,a-b-2c} (6 motions for bond/angle, motions {0,4} for the dihedral): Grad vs central "
       "differences of EvaluateVar (h=2^-10,2^-11,2^-12, two Richardson levels, tolerance 8*(|R2-R1|+8 eps|f|/h)+1e-9), sum of gradients, "
-      "invariance/covariance vs identity motion, invariance vs unshifted. p: LJ126 (9 parameter vectors), LJG (243), CBSPL (3^5, thorough also 3^6) x 2 "
+      "invariance/covariance vs identity motion, invariance vs unshifted; additionally (both tiers) the off-diagonal PATTERN of the box as a dimension: every zero/+/- "
+      "combination of (b_x,c_x,c_y) (27 = all 8 zero/non-zero patterns x all signs) on edges (6,6,6) [|b_x|,|c_x|,|c_y| = 1.5,1,2.5] and (5,6,7) [1.25,0.75,2.75], box type "
+      "auto-detected and given explicitly (110 box configurations), unshifted and every bead shifted by every n_a a+n_b b+n_c c, n in {-2..2}^3 without 0 (124), motions {0,4}, "
+      "for 3 bonds, 4 angles, 4 dihedrals (thorough: 6 motions for bonds, all 99 angle geometries, 108 dihedral geometries), same five checks, keys "
+      "<kind>-image-shift-{value,grad}-shear-<non-zero elements>-{auto,explicit-ortho,explicit-tric}. p: LJ126 (9 parameter vectors), LJG (243), CBSPL (3^5, thorough also 3^6) x 2 "
       "(min,cut) ranges x 9 r in [min,cut] incl. both ends (CBSPL: also every break and its two floating-point neighbours): DF and D2F vs first/second/mixed "
       "differences of CalculateF and vs first differences of CalculateDF, D2F symmetry; plus vectors with each single parameter exactly 0, all parameters 0 and the freshly "
       "constructed object. t: SavePotTab (both overloads) read back and compared with CalculateF on the requested grid. "
@@ -785,6 +866,7 @@ int main(int argc, char **argv) {
     R.eval();
     R.counters["comparisons"] += r.checks;
     R.counters[std::string("cases_") + cas[0]]++;
+    if (cas[0] == 'b' && cas.find(";box=od:") != std::string::npos) R.counters["cases_b_offdiag_pattern"]++;
     maxtol = std::max(maxtol, r.maxtol);
     for (auto &f : r.fails) R.fail(f.first, f.second + "  [" + cas + "]", cas);
     for (auto &c : r.classes) R.cls(c);
@@ -795,7 +877,7 @@ int main(int argc, char **argv) {
   R.counters["cases_in_all_shards"] = a.shard == 0 ? CL.n : 0;
   fprintf(stderr, "largest tolerance granted in this shard: %g\n", maxtol);
   R.assumptions = {std::string("geometries within ") + (thorough ? "10 (angles) / 15 (dihedrals)" : "15") + " degrees of the singular ones (angle 0/180, dihedral 0/180, collinear dihedral arms) are not on the lattice",
-                   "every component of every bond vector stays below half the box (bond lengths <= 2 in boxes >= 6, <= 1 in the 4-boxes), so the minimum image is unambiguous (C02 covers the convention itself)",
+                   "every component of every bond vector stays below half the box (bond lengths <= 2 in boxes with edges >= 5, <= 1 in the 4-boxes), so the minimum image is unambiguous (C02 covers the convention itself)",
                    "finite-difference tolerance = 8 x (difference of two Richardson levels + rounding bound) + 1e-9..1e-10 relative",
                    "CBSPL derivatives are taken w.r.t. the optimised coefficients (setOptParam/getOptParam), as CalculateDF documents",
                    "SavePotTab is compared with the function as reported after the call (CBSPL extrapolates its excluded coefficients while saving)",
